@@ -40,6 +40,9 @@ class PF(T.P):
                 stmts.append(('let', pat, e)); continue
             if t == 'return':
                 self.next(); e = self.expr(); self.accept(';'); stmts.append(('return', e)); continue
+            if t == 'for':
+                self.next(); pat = self.pattern1(); self.expect('in'); e = self.expr_no_struct(); b = self.block()
+                stmts.append(('for', pat, e, b)); continue
             if t == 'if':
                 s = self.if_stmt()
                 if self.peek() == '}' and s[0] == 'if' and s[3] is not None: tail = ('ifexpr', s); break
@@ -194,6 +197,8 @@ class EF(T.Emit):
             if name == 'predicate': return '(predicate %s)' % self.expr(recv)
             if name == 'flip': return '(flip %s)' % self.expr(recv)
             if name == 'intersect': return '(bs_intersect %s %s)' % (self.expr(recv), self.expr(args[0]))
+            if name in ('allows_all', 'allows_any') and self.ty(recv) == 'boundset':
+                return '(bs_%s %s %s)' % (name, self.expr(recv), self.expr(args[0]))
             if name == 'satisfies':
                 t = self.ty(recv)
                 if t == 'boundset': return '(bs_satisfies %s %s)' % (self.expr(recv), self.expr(args[0]))
@@ -356,6 +361,17 @@ class EF(T.Emit):
                 return '(let %s := (mkV %s %s %s %s %s) in\n  %s)' % (x, flds['major'], flds['minor'], flds['patch'], flds['build'], flds['pre'], self.stmts(rest, tail, k))
             raise Unsupported('expression statement')
         if s[0] in ('if', 'iflet'): return self.stmt_if(s, rest, tail, k)
+        if s[0] == 'for':
+            # a loop whose body only tests and returns: fold from the right, the continuation of an iteration is the rest of the loop
+            pat, coll, (bst, btail) = s[1], s[2], s[3]
+            if btail is not None: raise Unsupported('a for loop whose body has a value')
+            if pat[0] not in ('var', 'name'): raise Unsupported('for pattern')
+            after = self.stmts(rest, tail, k)
+            self.fresh += 1; kn = 'k%d__' % self.fresh
+            saved = dict(self.env); self.env[pat[1]] = self.elem_ty(coll)
+            body = self.stmts(bst, None, kn)
+            self.env = saved
+            return '(fold_right (fun %s %s => %s) %s %s)' % (T.ident(pat[1]), kn, body, after, self.expr(coll))
         if s[0] == 'matchstmt': return self.stmt_match(s[1], rest, tail, k)
         raise Unsupported('statement %s' % s[0])
     def stmt_if(self, s, rest, tail, k):
@@ -504,6 +520,20 @@ def defs():
           'Proof. intros a b. unfold bs_difference_src, bs_difference. destruct (bs_intersect a b) as [o|]; [|reflexivity].\n'
           '  destruct (bs_eqb o a); [reflexivity|]. destruct (blt (bs_lower a) (bs_lower o)), (blt (bs_upper o) (bs_upper a)); cbn [andb];\n'
           '  repeat match goal with |- context [bs_new ?x ?y] => destruct (bs_new x y) end; reflexivity. Qed.\n'),
+      'r_satisfies': (RNG, r'pub\s+fn\s+satisfies\s*\(&self,\s*version:\s*&Version\)\s*->\s*bool\s*\{\s*for', {'self': 'range', 'version': 'version'}, False,
+          'Definition r_satisfies_src (self_ : range) (version_ : version) : bool :=\n  %s.\n',
+          'Theorem r_satisfies_src_ok : forall r v, r_satisfies_src r v = r_satisfies r v.\n'
+          'Proof. intros r v. unfold r_satisfies_src, r_satisfies. induction r as [|a r IH]; cbn [fold_right existsb]; [reflexivity|]. rewrite IH. destruct (bs_satisfies a v); reflexivity. Qed.\n'),
+      'r_allows_all': (RNG, r'pub\s+fn\s+allows_all\s*\(&self,\s*other:\s*&Range\)\s*->\s*bool\s*\{', {'self': 'range', 'other': 'range'}, False,
+          'Definition r_allows_all_src (self_ other_ : range) : bool :=\n  %s.\n',
+          'Theorem r_allows_all_src_ok : forall a b, r_allows_all_src a b = r_allows_all a b.\n'
+          'Proof. intros a b. unfold r_allows_all_src, r_allows_all. induction a as [|x a IH]; cbn [fold_right existsb]; [reflexivity|]. rewrite IH.\n'
+          '  generalize (existsb (fun this => existsb (fun that => bs_allows_all this that) b) a). clear IH. intro k. induction b as [|y b IHb]; cbn [fold_right existsb]; [reflexivity|]. cbv zeta in *. rewrite IHb. destruct (bs_allows_all x y); reflexivity. Qed.\n'),
+      'r_allows_any': (RNG, r'pub\s+fn\s+allows_any\s*\(&self,\s*other:\s*&Range\)\s*->\s*bool\s*\{', {'self': 'range', 'other': 'range'}, False,
+          'Definition r_allows_any_src (self_ other_ : range) : bool :=\n  %s.\n',
+          'Theorem r_allows_any_src_ok : forall a b, r_allows_any_src a b = r_allows_any a b.\n'
+          'Proof. intros a b. unfold r_allows_any_src, r_allows_any. induction a as [|x a IH]; cbn [fold_right existsb]; [reflexivity|]. rewrite IH.\n'
+          '  generalize (existsb (fun this => existsb (fun that => bs_allows_any this that) b) a). clear IH. intro k. induction b as [|y b IHb]; cbn [fold_right existsb]; [reflexivity|]. cbv zeta in *. rewrite IHb. destruct (bs_allows_any x y); reflexivity. Qed.\n'),
       'min_version': (RNG, r'pub\s+fn\s+min_version\s*\(&self\)\s*->\s*Option<Version>\s*\{', {'self': 'range', 'set': 'boundset'}, False,
           'Definition min_version_src (self_ : range) : option version :=\n  %s.\n',
           'Theorem min_version_src_ok : forall r, min_version_src r = r_min_version r.\n'
@@ -523,7 +553,7 @@ def defs():
 USED_BY = {'is_prerelease': ['C03', 'C04'], 'version_eq': ['C04'], 'version_cmp': ['C04'], 'version_diff': ['C16'],
            'flip': ['C08'], 'predicate': ['C08'], 'at_least': ['C01'], 'at_most': ['C01'], 'exact': ['C01'],
            'bs_satisfies': ['C03', 'C06'], 'bs_allows_all': ['C10'], 'bs_allows_any': ['C09'], 'bs_intersect': ['C07'],
-           'bs_difference': ['C08', 'C06'], 'bs_print': ['C13'], 'min_version': ['C11', 'C06'], 'max_satisfying': ['C14'], 'min_satisfying': ['C14']}
+           'bs_difference': ['C08', 'C06'], 'bs_print': ['C13'], 'min_version': ['C11', 'C06'], 'max_satisfying': ['C14'], 'min_satisfying': ['C14'], 'r_satisfies': ['C03', 'C01'], 'r_allows_all': ['C10'], 'r_allows_any': ['C09']}
 
 def run(only=None):
     os.makedirs(GEN, exist_ok=True)
